@@ -131,17 +131,17 @@ func (s Snap) count(states ...string) int {
 
 // QRes is the normalised result of one operation.
 type QRes struct {
-	Err       string         `json:"err,omitempty"`
-	N         int            `json:"n,omitempty"`
-	Matched   int            `json:"matched,omitempty"`
-	Preview   bool           `json:"preview,omitempty"`
-	Items     []Msg          `json:"items,omitempty"`
-	Conflicts []QConf        `json:"conflicts,omitempty"`
-	ByState   map[string]int `json:"by_state,omitempty"`
-	Total     int            `json:"total,omitempty"`
-	Lookup    []string       `json:"lookup,omitempty"` // "id|route|state"
-	Skipped   bool           `json:"skipped,omitempty"`
-	StatsExtra string        `json:"stats_extra,omitempty"`
+	Err        string         `json:"err,omitempty"`
+	N          int            `json:"n,omitempty"`
+	Matched    int            `json:"matched,omitempty"`
+	Preview    bool           `json:"preview,omitempty"`
+	Items      []Msg          `json:"items,omitempty"`
+	Conflicts  []QConf        `json:"conflicts,omitempty"`
+	ByState    map[string]int `json:"by_state,omitempty"`
+	Total      int            `json:"total,omitempty"`
+	Lookup     []string       `json:"lookup,omitempty"` // "id|route|state"
+	Skipped    bool           `json:"skipped,omitempty"`
+	StatsExtra string         `json:"stats_extra,omitempty"`
 }
 
 type QConf struct {
@@ -170,9 +170,9 @@ func errClass(err error) string {
 // qClock is the fake clock shared by store and oracle.
 type qClock struct{ ns atomic.Int64 }
 
-func (c *qClock) Now() time.Time   { return qT0.Add(time.Duration(c.ns.Load())) }
-func (c *qClock) rel() int64       { return c.ns.Load() }
-func (c *qClock) set(ns int64)     { c.ns.Store(ns) }
+func (c *qClock) Now() time.Time      { return qT0.Add(time.Duration(c.ns.Load())) }
+func (c *qClock) rel() int64          { return c.ns.Load() }
+func (c *qClock) set(ns int64)        { c.ns.Store(ns) }
 func (c *qClock) add(d time.Duration) { c.ns.Add(int64(d)) }
 
 type qStore interface {
@@ -422,14 +422,14 @@ func itemEnvelope(it QItem, now time.Time) Envelope {
 // resolvedOp is the concrete form of an op after symbolic references were resolved against
 // this world; the oracle judges the concrete form.
 type resolvedOp struct {
-	Op      QOp
-	Envs    []Envelope
-	Leases  []string
-	IDs     []string
-	Before  time.Time
-	Now     int64
-	Dur     time.Duration
-	Limit   int
+	Op     QOp
+	Envs   []Envelope
+	Leases []string
+	IDs    []string
+	Before time.Time
+	Now    int64
+	Dur    time.Duration
+	Limit  int
 }
 
 func (w *qWorld) resolve(op QOp, snap Snap) resolvedOp {
